@@ -322,7 +322,7 @@ func New(cfg Config) *World {
 // world is then marked Starved and not explored further (a cap, never a verdict).
 func (w *World) guard(n *SimNode, f func()) {
 	var t *time.Timer
-	t = time.AfterFunc(3*time.Second, func() {
+	t = time.AfterFunc(10*time.Second, func() {
 		w.Starved = true
 		n.Loop.AddEvent(hotstuff.TimeoutEvent{View: 0}) // cancels the handler's timeout context
 		t.Reset(time.Second)
